@@ -20,7 +20,7 @@ demo() { # run the demo in the worktree; returns its rc
     (cd $wt && run go test -count=1 -run "$pat" ./$pkg/); rc=$?
     rm -f $wt/$pkg/zz_demo_test.go; return $rc
   else
-    (cd $wt && run bash $src/run_demo.sh $wt); return $?
+    (cd $wt && run bash $src/demo/run.sh $wt); return $?
   fi
 }
 echo "== pristine: demo must pass" >> $log; demo; p0=$?
